@@ -30,6 +30,18 @@ Lemma reser_shorter63 f m f' :
   bytes_ok f = true -> parse_msg f = Ok m -> ser_msg m = Ok f' -> lenN f' <= lenN f.
 Proof. exact (reser_shorter table f m f'). Qed.
 
+Lemma table_bytes : forallb desc_bytes table = true.
+Proof. vm_compute. reflexivity. Qed.
+
+Lemma frame_is_bytes63 m f : wf_msg m = true -> ser_msg m = Ok f -> bytes_ok f = true.
+Proof. exact (ser_bytes_in table m f table_bytes). Qed.
+
+Lemma per_type_agrees63 k f m : parse_as k f = Ok m -> parse_msg f = Ok m.
+Proof. exact (parse_as_msg table k f m). Qed.
+
+Lemma dispatch_agrees63 f m : parse_msg f = Ok m -> parse_as (nth 4 f 0) f = Ok m.
+Proof. exact (parse_msg_as table f m). Qed.
+
 (* payload identity, spelled out: the payload of the parsed message is the payload sent *)
 Lemma payload63 m f m' : wf_msg m = true -> ser_msg m = Ok f -> parse_msg f = Ok m' ->
   mvalue m' = mvalue m /\ mfields m' = mfields m /\ mkind m' = mkind m.
